@@ -228,8 +228,13 @@ class ConstructInterface(Interface):
             return VStr(p2)
         return VStr(fresh('excpath', t.STR))
 
+    foreign_errors = False
+
     def construct_error(self, eng, st, ec):
-        st.assume(eng.exc_sub_term(ec, 'ConstructError'))
+        # a failing sub-construct raises a ConstructError; under `foreign_errors` (set for the functions whose handlers catch
+        # Exception: GreedyRange, Select) it may raise ANY Exception - a user callback inside the element may raise whatever it
+        # likes, and the handler's contract has to hold for those too
+        st.assume(eng.exc_sub_term(ec, 'Exception' if self.foreign_errors else 'ConstructError'))
 
     def wrapper_stream(self, eng, stream, st, writes=True):
         """a RestreamedBytesIO handed to a sub-construct: the sub-construct may call any of its methods any number of times,
